@@ -28,7 +28,6 @@ from ..c17_meshes import (ALL, FIRST, SECOND, checksum, mesh_from_json, mesh_jso
 from ..core import TranslateError, cN, cbool, clist, cnat, cnats, cz, np_seed
 
 KEY_F7 = 'ori-wrong:_decode_cell_data'
-KEY_PLAIN = 'ori-dropped:dict-json-npz'
 
 
 # ------------------------------------------------------------------------------ Coq terms
@@ -284,12 +283,18 @@ Definition coh (c : nat * nat * mat nat * mat Z * list bool * list nat) : bool :
 Definition sub (c : nat * list nat) : list N * list nat :=
   let '(nt, s) := c in (gen_encode_subdomain nt s, gen_decode_subdomain (gen_encode_subdomain nt s)).
 '''
-    ctx.corr('encode_boundary', imp, 'enc', 'Ns_eqb', enc_cases, defs=defs, nontrivial=lambda r: r[3] >= 2)
-    ctx.corr('decode_boundary', imp, 'dec', '(pair_eqb nats_eqb bools_eqb)', dec_cases, defs=defs,
-             nontrivial=lambda r: r[2] >= 2 and r[3] >= 1)
-    ctx.corr('coherence_of_real_tables', imp, 'coh', 'Bool.eqb', coh_cases, defs=defs, nontrivial=lambda r: r[2] >= 2)
-    ctx.corr('subdomain_codec', imp, 'sub', '(pair_eqb Ns_eqb nats_eqb)', sub_cases, defs=defs,
-             nontrivial=lambda r: r[2] >= 1)
+    jobs = [
+        lambda: ctx.corr('encode_boundary', imp, 'enc', 'Ns_eqb', enc_cases, defs=defs, nontrivial=lambda r: r[3] >= 2),
+        lambda: ctx.corr('decode_boundary', imp, 'dec', '(pair_eqb nats_eqb bools_eqb)', dec_cases, defs=defs,
+                         nontrivial=lambda r: r[2] >= 2 and r[3] >= 1),
+        lambda: ctx.corr('coherence_of_real_tables', imp, 'coh', 'Bool.eqb', coh_cases, defs=defs,
+                         nontrivial=lambda r: r[2] >= 2),
+        lambda: ctx.corr('subdomain_codec', imp, 'sub', '(pair_eqb Ns_eqb nats_eqb)', sub_cases, defs=defs,
+                         nontrivial=lambda r: r[2] >= 1),
+    ]
+    from concurrent.futures import ThreadPoolExecutor
+    with ThreadPoolExecutor(len(jobs)) as ex:          # the coqc runs are independent processes
+        list(ex.map(lambda j: j(), jobs))
 
 
 # ------------------------------------------------------------------------------ oracle
@@ -333,13 +338,8 @@ def one_roundtrip(ctx, m, fmt, rng, codec_ok):
     for what, detail in diffs:
         if what == 'orientation' and not plain and not codec_ok:
             continue      # already reported with the codec itself as the call site (KEY_F7)
-        if what == 'orientation' and plain:
-            key = KEY_PLAIN
-            msg = ('to_dict/from_dict, io.json and save_npz/load_npz drop OrientedBoundary.ori '
-                   '(oriented interfaces come back unoriented)')
-        else:
-            key = f'{what}:{fmt}:{name}'
-            msg = f'{fmt} round trip of a {name}: {what} not preserved ({detail})'
+        key = f'{what}:{fmt}:{name}'
+        msg = f'{fmt} round trip of a {name}: {what} not preserved ({detail})'
         ctx.fail(key, msg, {'mesh': mesh_json(m), 'format': fmt, 'difference': [what, detail]})
 
 
